@@ -160,8 +160,8 @@ def setup(opts):
         else:
             wc.end(w)
         return v
-    rmod.time = vtime
-    # ... and wherever else the package reaches time.time: the function bound under another name, or the `time` module itself
+    # (not `rmod.time = vtime`: the name may be bound to the time MODULE in another spelling of the imports)
+    # wherever the receiver package reaches time.time: the function bound under another name, or the `time` module itself
     # (`import time`, `import time as _time`) - by identity, not by attribute name
     import patchall
     import time as _real_time
